@@ -51,10 +51,11 @@ fn decoded_segments(presentation: &str) -> Vec<String> {
 pub fn run_case(ctx: &mut Ctx, case: &Value) {
     crate::real::set_current(case);
     ctx.report.evaluations += 1;
-    let ic = match issue_own(ctx, case, "C06") {
+    let mut ic = match issue_own(ctx, case, "C06") {
         Some(ic) => ic,
         None => return,
     };
+    ic.learn_reported_paths();
     if is_nontrivial(&ic.marks) { ctx.report.nontrivial_case(&json!([case["tree"], case["order"]])); }
     ctx.report.sample(json!({"claims": ic.claims, "marked": ic.marks.iter().map(|m| m.path.clone()).collect::<Vec<_>>()}));
     // --- issuer JWT: no sentinel of any marked node in the decoded header / payload
@@ -88,7 +89,7 @@ pub fn run_case(ctx: &mut Ctx, case: &Value) {
     }
     // --- presentations
     let mut rng = Rng::fork(ctx.seed ^ 0xC06, crate::report::hash_of(&case["tree"]));
-    let sets = gen_redactions(&mut rng, &ic);
+    let sets = gen_redactions(&mut rng, &ic, false);
     let kbkey = holder_kb_key();
     let kbp = KbParams { aud: "aud", key: &kbkey, alg: Algorithm::RS256 };
     for r in sets.iter().take(5) {
